@@ -62,10 +62,11 @@ Section Main.
   (** the loop of deleteVersionsTo from the initial state of the call *)
   Theorem prune_run r sched eff n :
     f <> [] -> rekey_ok r f -> n < latest_of_forest f ->
-    exists p' c' r',
+    exists p' c',
       delete_range H (prune_fuel (phys_of r f)) (versions_from_to (first_of_forest f) n)
         (Pdb (phys_of r f) [] sched [] [] eff [] [phys_of r f]) rkc_new = POk p' /\
-      ST f p' c' (kept n) r' (first_of_forest (kept n)) /\ kept n <> [].
+      ST f p' c' (kept n) (rk_run (Z.to_nat (n + 1 - first_of f)) f r) (first_of_forest (kept n)) /\
+      kept n <> [].
   Proof.
     intros NE [_ Rk] Ln. rewrite first_of_forest_eq in *. rewrite latest_of_forest_eq in Ln.
     assert (Hr : forall w, In w r -> w < first_of f).
@@ -77,8 +78,8 @@ Section Main.
     rewrite versions_from_to_zseq. fold k.
     destruct (delete_range_ok H f iv FI ND OK WF NC (prune_fuel (phys_of r f)) (fuel_ok r NE Hr)
                 k f [] (first_of f) _ rkc_new r eq_refl Hz Lk (ST_init f iv FI ND OK r sched eff NE Hr))
-      as (p' & c' & r' & E & HS).
-    exists p', c', r'. split; [exact E|].
+      as (p' & c' & E & HS).
+    exists p', c'. split; [exact E|].
     rewrite (kept_skipn n NE). fold k.
     assert (Hk : map fst (skipn k f) = zseq (first_of f + Z.of_nat k) (length f - k)).
     { rewrite <- skipn_map, Hz. apply skipn_zseq. }
@@ -98,7 +99,7 @@ Section Main.
       st' = phys_of (rekeyed st') (kept n) /\ rekey_ok (rekeyed st') (kept n) /\
       norm_store st' = expected_store (kept n).
   Proof.
-    intros NE RK Ln. destruct (prune_run r sched eff n NE RK Ln) as (p' & c' & r' & E & [PX _] & NEk).
+    intros NE RK Ln. destruct (prune_run r sched eff n NE RK Ln) as (p' & c' & E & [PX _] & NEk).
     unfold prune_forest, prune_phys.
     replace (latest_of_forest f <=? n) with false by (symmetry; apply Z.leb_gt; exact Ln).
     cbv zeta. rewrite E. eexists _, _, _. split; [reflexivity|].
@@ -107,9 +108,9 @@ Section Main.
     assert (FI' : forest_inv (kept n)) by apply forest_inv_filter, FI.
     assert (ND' : NoDup (map fst (kept n))) by apply NoDup_filter_fst, ND.
     split; [|split].
-    - exact (final_phys f FI (kept n) FI' ND' r' _ (Vof p') Cx (pi_V _ _ _ _ _ _ P)).
-    - exact (final_rekey_ok f FI (kept n) r' _ (Vof p') Cx (pi_V _ _ _ _ _ _ P) eq_refl).
-    - exact (final_norm f FI (kept n) FI' ND' r' _ (Vof p') Cx (pi_V _ _ _ _ _ _ P)).
+    - exact (final_phys f FI (kept n) FI' ND' _ _ (Vof p') Cx (pi_V _ _ _ _ _ _ P)).
+    - exact (final_rekey_ok f FI (kept n) _ _ (Vof p') Cx (pi_V _ _ _ _ _ _ P) eq_refl).
+    - exact (final_norm (kept n) FI' ND' _ (Vof p') (pi_V _ _ _ _ _ _ P)).
   Qed.
 
   (** every state the disk goes through reads back every retained version *)
@@ -119,7 +120,7 @@ Section Main.
       prune_forest_disks H eff r f sched n = POk disks /\
       Forall (fun d => readable H d (kept n) = true) disks.
   Proof.
-    intros NE RK Ln LH. destruct (prune_run r sched eff n NE RK Ln) as (p' & c' & r' & E & [PX _] & NEk).
+    intros NE RK Ln LH. destruct (prune_run r sched eff n NE RK Ln) as (p' & c' & E & [PX _] & NEk).
     unfold prune_forest_disks, prune_phys_disks.
     replace (latest_of_forest f <=? n) with false by (symmetry; apply Z.leb_gt; exact Ln).
     cbv zeta. rewrite E. eexists. split; [reflexivity|].
@@ -136,5 +137,21 @@ Section Main.
     apply Forall_app. split.
     - eapply Forall_impl; [|exact (pi_hist _ _ _ _ _ _ P)]. exact G.
     - constructor; [|constructor]. apply G. exact (proj1 (pi_Vgood _ _ _ _ _ _ P)).
+  Qed.
+  (** the final store depends neither on the flush schedule nor on the flush mode *)
+  Theorem prune_forest_schedule_nc r sched1 eff1 sched2 eff2 n st1 log1 fl1 st2 log2 fl2 :
+    f <> [] -> rekey_ok r f -> n < latest_of_forest f ->
+    prune_forest H eff1 r f sched1 n = POk (st1, log1, fl1) ->
+    prune_forest H eff2 r f sched2 n = POk (st2, log2, fl2) ->
+    st1 = st2.
+  Proof.
+    intros NE RK Ln E1 E2.
+    destruct (prune_run r sched1 eff1 n NE RK Ln) as (p1 & c1 & R1 & [[_ P1] _] & _).
+    destruct (prune_run r sched2 eff2 n NE RK Ln) as (p2 & c2 & R2 & [[_ P2] _] & _).
+    unfold prune_forest, prune_phys in E1, E2.
+    replace (latest_of_forest f <=? n) with false in * by (symmetry; apply Z.leb_gt; exact Ln).
+    cbv zeta in E1, E2. rewrite R1 in E1. rewrite R2 in E2.
+    inversion E1; subst. inversion E2; subst.
+    exact (pst_ext _ _ _ (pi_V _ _ _ _ _ _ P1) (pi_V _ _ _ _ _ _ P2)).
   Qed.
 End Main.
